@@ -22,7 +22,11 @@ EARLY = ('    assert!(!model::any_matched() || model::any_skipped(), "a match wa
 
 
 def par_h(term, ty, n, t, c, src="slice"):
-    return scalar_harness("c10", term, ty, src, n, t, c, extra_post=EARLY.format(n=n), tag="exit")
+    post = EARLY.format(n=n)
+    if term == "first":
+        # no predicate, hence no "matched" observation: the witness is that early exit cut the source short
+        post = post.replace("kani::cover!(model::any_matched() && model::cut() < ", "kani::cover!(model::cut() < ")
+    return scalar_harness("c10", term, ty, src, n, t, c, extra_post=post, tag="exit")
 
 
 def seq_h(term, ty, n):
